@@ -18,6 +18,7 @@ package oauth2
 
 //@ interface AuthorizeCodeStorage.GetAuthorizeCodeSession
 //@   modifies faults
+//@   ensures request != nil && stored[request] ==> shared[request] && shared[request.GetSession()]
 //@   ensures err == nil ==> code_exists[code] && code_active[code] && request != nil && request == code_req[code] && request.GetID() == code_rid[code] && request.GetClient() != nil && request.GetClient().GetID() == code_client[code] && (stored[request] || fresh(request)) && faults == old(faults)
 //@   ensures err != nil && eis(err, fosite.ErrInvalidatedAuthorizeCode) ==> code_exists[code] && !code_active[code] && faults == old(faults) && request == code_req[code] && (request != nil ==> request.GetID() == code_rid[code] && (stored[request] || fresh(request)))
 //@   ensures err != nil && !eis(err, fosite.ErrInvalidatedAuthorizeCode) && eis(err, fosite.ErrNotFound) ==> !code_exists[code] && faults == old(faults)
@@ -37,6 +38,7 @@ package oauth2
 
 //@ interface AccessTokenStorage.GetAccessTokenSession
 //@   modifies faults
+//@   ensures request != nil && stored[request] ==> shared[request] && shared[request.GetSession()]
 //@   ensures err == nil ==> acc_exists[signature] && request != nil && request == acc_req[signature] && request.GetID() == acc_rid[signature] && request.GetClient() != nil && request.GetClient().GetID() == acc_client[signature] && (stored[request] || fresh(request)) && faults == old(faults)
 //@   ensures err != nil && eis(err, fosite.ErrNotFound) ==> !acc_exists[signature] && faults == old(faults)
 //@   ensures err != nil && !eis(err, fosite.ErrNotFound) ==> faults == old(faults) + 1
@@ -55,6 +57,7 @@ package oauth2
 
 //@ interface RefreshTokenStorage.GetRefreshTokenSession
 //@   modifies faults
+//@   ensures request != nil && stored[request] ==> shared[request] && shared[request.GetSession()]
 //@   ensures err == nil ==> ref_exists[signature] && ref_active[signature] && request != nil && request == ref_req[signature] && request.GetID() == ref_rid[signature] && request.GetClient() != nil && request.GetClient().GetID() == ref_client[signature] && (stored[request] || fresh(request)) && faults == old(faults)
 //@   ensures err != nil && eis(err, fosite.ErrInactiveToken) ==> ref_exists[signature] && !ref_active[signature] && request != nil && request == ref_req[signature] && request.GetID() == ref_rid[signature] && (stored[request] || fresh(request)) && faults == old(faults)
 //@   ensures err != nil && !eis(err, fosite.ErrInactiveToken) && eis(err, fosite.ErrNotFound) ==> !ref_exists[signature] && faults == old(faults)
@@ -121,11 +124,12 @@ package oauth2
 
 //@ func (*AuthorizeExplicitGrantHandler).HandleTokenEndpointRequest
 //@   modifies anyheap
+//@   protects [C19.no-write-to-store-owned-session] shared
 //@   let code = formget(old(request.GetRequestForm()), "code")
 //@   let sig  = old(c.AuthorizeCodeStrategy.AuthorizeCodeSignature(ctx, code))
 //@   let used = old(code_exists[sig]) && !old(code_active[sig])
 //@   let rid  = old(code_rid[sig])
-//@   requires c != nil && request != nil && !stored[request]
+//@   requires c != nil && request != nil && !stored[request] && !shared[request] && !shared[request.GetSession()]
 //@   modifies acc_exists, ref_active, faults, validated_n, tx_escaped
 //@   ensures [C06.lookup-then-validate] err == nil ==> validated_n[code] > old(validated_n[code])
 //@   ensures [C01.replay-refused] used ==> err != nil
@@ -137,7 +141,7 @@ package oauth2
 //@   ensures [C02.client-bound] err == nil ==> old(code_client[sig]) == request.GetClient().GetID()
 //@   ensures [C02.redirect-bound] err == nil && formget(old(code_req[sig]).GetRequestForm(), "redirect_uri") != "" ==> formget(old(code_req[sig]).GetRequestForm(), "redirect_uri") == formget(request.GetRequestForm(), "redirect_uri")
 //@   ensures [C02.success-needs-live-code] err == nil ==> old(code_exists[sig]) && old(code_active[sig])
-//@   ensures [C02.grant-overrides-request] err == nil ==> request.GetID() == rid && sameset(request.GetRequestedScopes(), old(code_req[sig]).GetRequestedScopes()) && sameset(request.GetRequestedAudience(), old(code_req[sig]).GetRequestedAudience()) && request.GetSession() == old(code_req[sig]).GetSession()
+//@   ensures [C02.grant-overrides-request] err == nil ==> request.GetID() == rid && sameset(request.GetRequestedScopes(), old(code_req[sig]).GetRequestedScopes()) && sameset(request.GetRequestedAudience(), old(code_req[sig]).GetRequestedAudience()) && request.GetSession() != nil && request.GetSession().GetSubject() == old(code_req[sig]).GetSession().GetSubject() && request.GetSession().GetUsername() == old(code_req[sig]).GetSession().GetUsername()
 //@   ensures [C02.failed-attempt-leaves-code] code_exists == old(code_exists) && code_active == old(code_active)
 
 //@ func getExpiresIn
@@ -219,13 +223,14 @@ package oauth2
 //@   assert @call(handleRefreshTokenReuse)#1 [C20.storage-keys-are-signatures] $arg2 == c.RefreshTokenStrategy.RefreshTokenSignature(ctx, refresh)
 //@   assert @call(GetRefreshTokenSession)#1 [C20.storage-keys-are-signatures] $arg2 == c.RefreshTokenStrategy.RefreshTokenSignature(ctx, refresh)
 //@   modifies anyheap
+//@   protects [C19.no-write-to-store-owned-session] shared
 //@   let refresh = formget(old(request.GetRequestForm()), "refresh_token")
 //@   let sig  = old(c.RefreshTokenStrategy.RefreshTokenSignature(ctx, refresh))
 //@   let reuse = old(ref_exists[sig]) && !old(ref_active[sig])
 //@   let rid  = old(ref_rid[sig])
 //@   let orig = old(ref_req[sig])
 //@   let canhandle = c.CanHandleTokenEndpointRequest(ctx, request) && old(request.GetClient().GetGrantTypes()).Has("refresh_token")
-//@   requires c != nil && request != nil && !stored[request] && request.GetClient() != nil
+//@   requires c != nil && request != nil && !stored[request] && request.GetClient() != nil && !shared[request] && !shared[request.GetSession()]
 //@   modifies tx_open, tx_begun, tx_committed, tx_rolledback, tx_commit_calls, tx_rollback_calls, snap_code_active, snap_acc_exists, snap_ref_exists, snap_ref_active, snap_dev_live, dev_live, code_active, acc_exists, ref_exists, ref_active, faults, validated_n, tx_escaped, tx_ctx
 //@   ensures [C18.writes-inside-tx] old(tx_open) == 0 ==> tx_escaped == old(tx_escaped)
 //@   ensures [C06.lookup-then-validate] err == nil ==> validated_n[refresh] > old(validated_n[refresh])
@@ -377,7 +382,8 @@ package oauth2
 
 //@ func (*CoreValidator).introspectAccessToken
 //@   let sig = c.CoreStrategy.AccessTokenSignature(ctx, token)
-//@   requires c != nil && accessRequest != nil && !stored[accessRequest]
+//@   requires c != nil && accessRequest != nil && !stored[accessRequest] && !shared[accessRequest]
+//@   protects [C19.no-write-to-store-owned-session] shared
 //@   modifies faults, validated_n, accessRequest.GetID(), accessRequest.GetRequestedAt(), accessRequest.GetClient(), accessRequest.GetSession(), accessRequest.GetRequestedScopes(), accessRequest.GetGrantedScopes(), accessRequest.GetRequestedAudience(), accessRequest.GetGrantedAudience(), accessRequest.GetRequestForm()
 //@   ensures [C09.active-iff] err == nil ==> acc_exists[sig] && validated_n[token] > old(validated_n[token]) && (forall j int :: 0 <= j && j < len(scopes) ==> scopes[j] == "" || call(c.Config.GetScopeStrategy(ctx), acc_req[sig].GetGrantedScopes(), scopes[j]))
 //@   ensures [C09.active-iff] !acc_exists[sig] ==> err != nil
@@ -387,7 +393,8 @@ package oauth2
 
 //@ func (*CoreValidator).introspectRefreshToken
 //@   let sig = c.CoreStrategy.RefreshTokenSignature(ctx, token)
-//@   requires c != nil && accessRequest != nil && !stored[accessRequest]
+//@   requires c != nil && accessRequest != nil && !stored[accessRequest] && !shared[accessRequest]
+//@   protects [C19.no-write-to-store-owned-session] shared
 //@   modifies faults, validated_n, accessRequest.GetID(), accessRequest.GetRequestedAt(), accessRequest.GetClient(), accessRequest.GetSession(), accessRequest.GetRequestedScopes(), accessRequest.GetGrantedScopes(), accessRequest.GetRequestedAudience(), accessRequest.GetGrantedAudience(), accessRequest.GetRequestForm()
 //@   ensures [C09.active-iff] err == nil ==> ref_exists[sig] && ref_active[sig] && validated_n[token] > old(validated_n[token]) && (forall j int :: 0 <= j && j < len(scopes) ==> scopes[j] == "" || call(c.Config.GetScopeStrategy(ctx), ref_req[sig].GetGrantedScopes(), scopes[j]))
 //@   ensures [C09.active-iff] !(ref_exists[sig] && ref_active[sig]) ==> err != nil
@@ -398,7 +405,8 @@ package oauth2
 //@ func (*CoreValidator).IntrospectToken
 //@   let asig = c.CoreStrategy.AccessTokenSignature(ctx, token)
 //@   let rsig = c.CoreStrategy.RefreshTokenSignature(ctx, token)
-//@   requires c != nil && accessRequest != nil && !stored[accessRequest]
+//@   requires c != nil && accessRequest != nil && !stored[accessRequest] && !shared[accessRequest]
+//@   protects [C19.no-write-to-store-owned-session] shared
 //@   modifies faults, validated_n, accessRequest.GetID(), accessRequest.GetRequestedAt(), accessRequest.GetClient(), accessRequest.GetSession(), accessRequest.GetRequestedScopes(), accessRequest.GetGrantedScopes(), accessRequest.GetRequestedAudience(), accessRequest.GetGrantedAudience(), accessRequest.GetRequestForm()
 //@   ensures [C09.kind-truthful] result1 == nil ==> (result0 == fosite.AccessToken || result0 == fosite.RefreshToken)
 //@   ensures [C09.kind-truthful] result1 == nil && result0 == fosite.AccessToken ==> acc_exists[asig] && accessRequest.GetClient().GetID() == acc_client[asig] && accessRequest.GetID() == acc_rid[asig]
